@@ -806,3 +806,579 @@ Lemma keep_inv_run cfg progs sched : retain cfg = true -> forall st, keep_inv st
 Proof.
   intro Hr. unfold run. induction sched as [|s sched IH]; intros st H; [exact H|]. cbn [fold_left]. apply IH. now apply keep_inv_step.
 Qed.
+
+(* ------------------------------------------------------------------ interleavings do not matter *)
+
+Definition owner_ok (s : nat) (v : value) : Prop :=
+  match value_owner v with None => True | Some o => o = s end.
+Definition env_ok (s : nat) (e : env) : Prop := Forall (fun kv => owner_ok s (snd kv)) e.
+(* what Params.Setup adds refers to no other script's work directory *)
+Definition wf_script (s : nat) (p : script) : Prop := env_ok s (setup_adds p).
+
+Lemma env_get_first_ok s e k v : env_ok s e -> env_get_first e k = Some v -> owner_ok s v.
+Proof.
+  induction e as [|[n w] e IH]; intros H G; cbn [env_get_first] in G; [discriminate|].
+  inversion H as [|? ? H1 H2]; subst. destruct (bytes_eqb n k); [injection G as <-; exact H1 | now apply IH].
+Qed.
+
+Lemma env_get_ok s e k v : env_ok s e -> env_get e k = Some v -> owner_ok s v.
+Proof. intros H. apply env_get_first_ok. unfold env_ok in *. now apply Forall_rev. Qed.
+
+Lemma path_value_ok s e : env_ok s e -> owner_ok s (path_value e).
+Proof.
+  intro H. unfold path_value. destruct (env_get e PATH) eqn:E; [eapply env_get_ok; eauto | exact I].
+Qed.
+
+Lemma initial_env_ok h s adds : env_ok s adds -> env_ok s (initial_env h s adds).
+Proof.
+  intro H. unfold initial_env, env_ok. rewrite !Forall_app. repeat split; try exact H.
+  - unfold resolve_all. apply Forall_map. apply Forall_forall. intros [n src] _. cbn. destruct src; cbn; auto. 
+  - unfold passthrough. apply Forall_forall. intros x Hx. apply in_flat_map in Hx as (n & _ & Hx).
+    destruct (host_get h n); [destruct Hx|]. destruct Hx as [<-|[]]. exact I.
+  - unfold resolve_all. apply Forall_map. apply Forall_forall. intros [n src] _. cbn. destruct src; cbn; auto.
+Qed.
+
+Definition key_lit (k : ckey) : Prop := exists b, fst k = Some (VLit b).
+Definition usable (s : nat) (k : ckey) : Prop := exists pv, fst k = Some pv /\ owner_ok s pv.
+Definition hostval (cfg : config) (k : ckey) : bool :=
+  match fst k with Some (VLit b) => hosttab_get (hosttab cfg) b (snd k) | _ => false end.
+
+(* the shared cache [cb] against the cache [ca] the script would have had alone *)
+Definition Rel (cfg : config) (s : nat) (cb ca : cache) : Prop :=
+  forall k, usable s k ->
+    (forall v, cache_get ca k = Some v -> cache_get cb k = Some v) /\
+    (forall v, cache_get cb k = Some v ->
+               cache_get ca k = Some v \/ (cache_get ca k = None /\ key_lit k /\ v = hostval cfg k)).
+Definition Glob (cfg : config) (cb : cache) : Prop :=
+  forall k v, cache_get cb k = Some v -> key_lit k -> v = hostval cfg k.
+
+Lemma usable_two s s' k : s <> s' -> usable s k -> usable s' k -> key_lit k.
+Proof.
+  intros Hne (pv & E & O) (pv' & E' & O'). rewrite E in E'. injection E' as <-.
+  unfold owner_ok in *. destruct pv as [b|o sub|o sub rest]; cbn in *; [now exists b| |]; congruence.
+Qed.
+
+Lemma look_lit cfg s t b prog : look cfg s t (VLit b) prog = hostval cfg (Some (VLit b), prog).
+Proof. reflexivity. Qed.
+
+Lemma ckey_eqb_refl k : ckey_eqb k k = true.
+Proof. now apply ckey_eqb_eq. Qed.
+
+Lemma cached_look_sim cfg s cb ca ss prog vb cb' va ca' :
+  key_by_path cfg = true -> Rel cfg s cb ca -> Glob cfg cb -> env_ok s (senv ss) ->
+  cached_look cfg s cb ss prog = (vb, cb') -> cached_look cfg s ca ss prog = (va, ca') ->
+  vb = va /\ Rel cfg s cb' ca' /\ Glob cfg cb' /\
+  (forall s' ca2, s' <> s -> Rel cfg s' cb ca2 -> Rel cfg s' cb' ca2).
+Proof.
+  intros Hk R G E Hb Ha. unfold cached_look in *. rewrite Hk in *.
+  set (pv := path_value (senv ss)) in *. set (k := (Some pv, prog) : ckey) in *.
+  assert (U : usable s k) by (exists pv; split; [reflexivity | now apply path_value_ok]).
+  destruct (R k U) as [R1 R2].
+  destruct (cache_get cb k) as [v|] eqn:Ecb.
+  - injection Hb as <- <-. destruct (R2 v eq_refl) as [Eca|(Eca & [b Hl] & Hv)].
+    + rewrite Eca in Ha. injection Ha as <- <-. split; [reflexivity|]. split; [exact R|]. split; [exact G|]. auto.
+    + rewrite Eca in Ha. injection Ha as <- <-.
+      cbn [fst] in Hl. injection Hl as Hl. rewrite Hl, look_lit. fold pv in Hl.
+      assert (Hv' : v = hostval cfg (Some (VLit b), prog)) by (rewrite Hv; unfold k; now rewrite Hl).
+      split; [exact Hv'|]. split; [|split; [exact G | auto]].
+      intros k2 U2. rewrite cache_get_cons. destruct (ckey_eqb k k2) eqn:Ek.
+      * apply ckey_eqb_eq in Ek. subst k2. split.
+        -- intros v2 Hv2. injection Hv2 as <-. rewrite <- Hv'. exact Ecb.
+        -- intros v2 Hv2. left. rewrite Ecb in Hv2. rewrite <- Hv'. exact Hv2.
+      * exact (R k2 U2).
+  - assert (Eca : cache_get ca k = None).
+    { destruct (cache_get ca k) as [v|] eqn:Eca; [|reflexivity]. specialize (R1 v eq_refl). discriminate. }
+    rewrite Eca in Ha. injection Hb as <- <-. injection Ha as <- <-.
+    split; [reflexivity|]. split; [|split].
+    + intros k2 U2. rewrite !cache_get_cons. destruct (ckey_eqb k k2) eqn:Ek.
+      * split; intros v2 Hv2; [exact Hv2 | now left].
+      * exact (R k2 U2).
+    + intros k2 v2. rewrite cache_get_cons. destruct (ckey_eqb k k2) eqn:Ek; [|apply G].
+      apply ckey_eqb_eq in Ek. subst k2. intros Hv2 [b Hl]. injection Hv2 as <-.
+      cbn [fst] in Hl. injection Hl as Hl. unfold k. rewrite Hl. apply look_lit.
+    + intros s' ca2 Hne R' k2 U2. rewrite cache_get_cons. destruct (ckey_eqb k k2) eqn:Ek; [|exact (R' k2 U2)].
+      apply ckey_eqb_eq in Ek. subst k2. destruct (R' k U2) as [R1' R2'].
+      assert (Eca2 : cache_get ca2 k = None).
+      { destruct (cache_get ca2 k) as [v|] eqn:Eca2; [|reflexivity]. specialize (R1' v eq_refl). rewrite Ecb in R1'. discriminate. }
+      split.
+      * intros v2 Hv2. rewrite Eca2 in Hv2. discriminate.
+      * intros v2 Hv2. injection Hv2 as <-. right. split; [exact Eca2|].
+        pose proof (usable_two s' s k Hne U2 U) as Hlit. split; [exact Hlit|].
+        destruct Hlit as [b Hl]. cbn [fst] in Hl. injection Hl as Hl. unfold k. rewrite Hl. apply look_lit.
+Qed.
+
+Lemma exec_action_env_ok cfg s a : forall c ss c' ss' o,
+  exec_action cfg s c ss a = (c', ss', o) -> env_ok s (senv ss) -> env_ok s (senv ss').
+Proof.
+  induction a as [p d|p ro|p|p|k v|sub keep|id bad|h neg| | | | | |neg prog a IH]; intros c ss c' ss' o H E;
+    cbn [exec_action] in H.
+  - destruct (write_file _ _ _ _); injection H as <- <- <-; exact E.
+  - destruct (mkdir_all _ _ _); injection H as <- <- <-; exact E.
+  - destruct (cwd ss ++ p); [injection H as <- <- <-; exact E|].
+    destruct (tree_get _ _) as [[?|? ?]|]; injection H as <- <- <-; exact E.
+  - destruct (get_node _ _) as [[?|? ?]|]; injection H as <- <- <-; exact E.
+  - injection H as <- <- <-. cbn [set_env senv]. apply Forall_app. split; [exact E|]. constructor; [exact I|constructor].
+  - injection H as <- <- <-. cbn [set_env senv]. apply Forall_app. split; [exact E|]. constructor; [reflexivity|constructor].
+  - injection H as <- <- <-. exact E.
+  - destruct (look _ _ _ _ _); injection H as <- <- <-; exact E.
+  - injection H as <- <- <-. exact E.
+  - injection H as <- <- <-. exact E.
+  - destruct (skip_wait (bgl ss)) as [waited ok]. destruct ok; injection H as <- <- <-; exact E.
+  - injection H as <- <- <-. exact E.
+  - injection H as <- <- <-. exact E.
+  - destruct (cached_look cfg s c ss prog) as [ans c1]. destruct (Bool.eqb ans (negb neg)).
+    + eapply IH; eauto.
+    + injection H as <- <- <-. exact E.
+Qed.
+
+(* a line without [exec:...] neither reads nor writes the cache *)
+Lemma exec_action_nocond cfg s a : uses_cond a = false ->
+  forall c1 c2 ss, exec_action cfg s c2 ss a =
+                   (c2, snd (fst (exec_action cfg s c1 ss a)), snd (exec_action cfg s c1 ss a))
+                   /\ fst (fst (exec_action cfg s c1 ss a)) = c1.
+Proof.
+  intros H c1 c2 ss. destruct a; try discriminate; cbn [exec_action];
+    repeat match goal with
+           | |- context [match ?x with _ => _ end] => destruct x
+           end; split; reflexivity.
+Qed.
+
+Definition frame_others (cfg : config) (s : nat) (cb cb' : cache) : Prop :=
+  forall s' ca2, s' <> s -> Rel cfg s' cb ca2 -> Rel cfg s' cb' ca2.
+
+Lemma exec_action_sim cfg s a : key_by_path cfg = true ->
+  forall cb ca ss cb' ssb ob ca' ssa oa,
+  Rel cfg s cb ca -> Glob cfg cb -> env_ok s (senv ss) ->
+  exec_action cfg s cb ss a = (cb', ssb, ob) -> exec_action cfg s ca ss a = (ca', ssa, oa) ->
+  ssb = ssa /\ ob = oa /\ Rel cfg s cb' ca' /\ Glob cfg cb' /\ frame_others cfg s cb cb'.
+Proof.
+  intro Hk. induction a as [p d|p ro|p|p|k v|sub keep|id bad|h neg| | | | | |neg prog a IH];
+    intros cb ca ss cb' ssb ob ca' ssa oa R G E Hb Ha.
+  14: {
+    cbn [exec_action] in Hb, Ha.
+    destruct (cached_look cfg s cb ss prog) as [vb cb1] eqn:Eb.
+    destruct (cached_look cfg s ca ss prog) as [va ca1] eqn:Ea.
+    destruct (cached_look_sim _ _ _ _ _ _ _ _ _ _ Hk R G E Eb Ea) as (-> & R1 & G1 & F1).
+    destruct (Bool.eqb va (negb neg)).
+    - assert (E1 : env_ok s (senv (add_obs ss [EvCond prog va]))) by exact E.
+      destruct (IH _ _ _ _ _ _ _ _ _ R1 G1 E1 Hb Ha) as (-> & -> & R2 & G2 & F2).
+      split; [reflexivity|]. split; [reflexivity|]. split; [exact R2|]. split; [exact G2|].
+      intros s' ca2 Hne R'. apply F2; [assumption|]. now apply F1.
+    - injection Hb as <- <- <-. injection Ha as <- <- <-.
+      split; [reflexivity|]. split; [reflexivity|]. split; [exact R1|]. split; [exact G1|]. exact F1. }
+  all: match goal with |- _ => idtac end.
+  all: (match type of Hb with exec_action _ _ _ _ ?a = _ =>
+          destruct (exec_action_nocond cfg s a eq_refl ca cb ss) as [X1 X2];
+          destruct (exec_action_nocond cfg s a eq_refl ca ca ss) as [Y1 Y2] end);
+       rewrite X1 in Hb; rewrite Y1 in Ha; injection Hb as <- <- <-; injection Ha as <- <- <-;
+       (split; [reflexivity|]); (split; [reflexivity|]); (split; [exact R|]); (split; [exact G|]);
+       intros s' ca2 _ R'; exact R'.
+Qed.
+
+Lemma frame_others_refl cfg s c : frame_others cfg s c c.
+Proof. intros s' ca2 _ R. exact R. Qed.
+
+Lemma sstep_sim cfg p s cb ca ss cb' ssb eb ca' ssa ea :
+  key_by_path cfg = true -> wf_script s p ->
+  Rel cfg s cb ca -> Glob cfg cb -> env_ok s (senv ss) ->
+  sstep cfg p s cb ss = (cb', ssb, eb) -> sstep cfg p s ca ss = (ca', ssa, ea) ->
+  ssb = ssa /\ Rel cfg s cb' ca' /\ Glob cfg cb' /\ env_ok s (senv ssb) /\ frame_others cfg s cb cb'.
+Proof.
+  intros Hk Hwf R G E Hb Ha. unfold sstep in Hb, Ha.
+  destruct (ph ss) as [|pc|v st|v].
+  - destruct (setup_tree (is_root cfg) (archive p)) as [t|].
+    + destruct (setup_err p); injection Hb as <- <- <-; injection Ha as <- <- <-;
+        (split; [reflexivity|]); (split; [exact R|]); (split; [exact G|]);
+        (split; [cbn; now apply initial_env_ok | apply frame_others_refl]).
+    + injection Hb as <- <- <-; injection Ha as <- <- <-.
+      split; [reflexivity|]. split; [exact R|]. split; [exact G|]. split; [constructor | apply frame_others_refl].
+  - destruct (nth_error (body p) pc) as [a|].
+    + destruct (exec_action cfg s cb ss a) as [[cb1 ssb1] ob] eqn:Eb.
+      destruct (exec_action cfg s ca ss a) as [[ca1 ssa1] oa] eqn:Ea.
+      destruct (exec_action_sim cfg s a Hk _ _ _ _ _ _ _ _ _ R G E Eb Ea) as (-> & -> & R1 & G1 & F1).
+      injection Hb as <- <- <-; injection Ha as <- <- <-.
+      split; [reflexivity|]. split; [exact R1|]. split; [exact G1|]. split; [|exact F1].
+      cbn [set_ph senv]. eapply exec_action_env_ok; eauto.
+    + injection Hb as <- <- <-; injection Ha as <- <- <-.
+      split; [reflexivity|]. split; [exact R|]. split; [exact G|]. split; [exact E | apply frame_others_refl].
+  - destruct st; try (injection Hb as <- <- <-; injection Ha as <- <- <-;
+        (split; [reflexivity|]); (split; [exact R|]); (split; [exact G|]); (split; [exact E | apply frame_others_refl])).
+    destruct (retain cfg); injection Hb as <- <- <-; injection Ha as <- <- <-;
+        (split; [reflexivity|]); (split; [exact R|]); (split; [exact G|]); (split; [exact E | apply frame_others_refl]).
+  - injection Hb as <- <- <-; injection Ha as <- <- <-.
+    split; [reflexivity|]. split; [exact R|]. split; [exact G|]. split; [exact E | apply frame_others_refl].
+Qed.
+
+(* the batch against every script's solitary run *)
+Definition Sim (cfg : config) (progs : list script) (st : bstate) (k : nat -> nat) : Prop :=
+  Glob cfg (xcache (sh st)) /\
+  forall s p, nth_error progs s = Some p ->
+    exists ss, nth_error (scripts st) s = Some ss /\ snd (alone cfg p s (k s)) = ss /\
+               Rel cfg s (xcache (sh st)) (fst (alone cfg p s (k s))) /\ env_ok s (senv ss).
+
+Lemma Rel_nil cfg s : Rel cfg s [] [].
+Proof. intros k _. split; intros v H; discriminate. Qed.
+
+Lemma nth_error_map_const_some {A B} (l : list A) (b : B) i a :
+  nth_error l i = Some a -> nth_error (map (fun _ => b) l) i = Some b.
+Proof. revert i. induction l as [|x l IH]; intros [|i] H; cbn in *; try discriminate; [reflexivity | eauto]. Qed.
+
+Lemma Sim_init cfg progs : Sim cfg progs (init progs) (fun _ => 0).
+Proof.
+  split; [intros k v H; discriminate|]. intros s p Hp. exists sstate0. cbn.
+  split; [eapply nth_error_map_const_some; eauto|]. split; [reflexivity|]. split; [apply Rel_nil | constructor].
+Qed.
+
+Lemma apply_effect_cache cfg h c e : xcache (apply_effect cfg h c e) = c.
+Proof. destruct e; cbn [apply_effect]; [reflexivity|]. now destruct (Nat.eqb _ _). Qed.
+
+Lemma Sim_step cfg progs st k s0 :
+  key_by_path cfg = true -> (forall s p, nth_error progs s = Some p -> wf_script s p) ->
+  Sim cfg progs st k -> Sim cfg progs (step cfg progs st s0) (fun s => if Nat.eqb s s0 then S (k s) else k s).
+Proof.
+  intros Hk Hwf [G H]. unfold step.
+  destruct (nth_error progs s0) as [p0|] eqn:Ep0.
+  2:{ split; [exact G|]. intros s p Hp. destruct (Nat.eqb s s0) eqn:E; [apply Nat.eqb_eq in E; congruence | now apply H]. }
+  destruct (H s0 p0 Ep0) as (ss0 & Es0 & A0 & R0 & E0). rewrite Es0.
+  destruct (sstep cfg p0 s0 (xcache (sh st)) ss0) as [[cb' ssb] eb] eqn:Eb.
+  destruct (sstep cfg p0 s0 (fst (alone cfg p0 s0 (k s0))) ss0) as [[ca' ssa] ea] eqn:Ea.
+  destruct (sstep_sim _ _ _ _ _ _ _ _ _ _ _ _ Hk (Hwf _ _ Ep0) R0 G E0 Eb Ea) as (<- & R1 & G1 & E1 & F1).
+  unfold Sim. cbn [sh scripts]. rewrite apply_effect_cache. split; [exact G1|].
+  intros s p Hp. destruct (Nat.eqb s s0) eqn:E.
+  - apply Nat.eqb_eq in E. subst s. rewrite Ep0 in Hp. injection Hp as <-.
+    exists ssb. split; [eapply nth_error_upd_same; eauto|].
+    cbn [alone]. destruct (alone cfg p0 s0 (k s0)) as [ca ssx] eqn:Eal. cbn [fst snd] in *. subst ssx.
+    rewrite Ea. cbn [fst snd]. auto.
+  - apply Nat.eqb_neq in E. destruct (H s p Hp) as (ss & Es & A & R & Ee).
+    exists ss. split; [rewrite nth_error_upd_other by congruence; exact Es|].
+    split; [exact A|]. split; [apply F1; assumption | exact Ee].
+Qed.
+
+Lemma Sim_run cfg progs sched :
+  key_by_path cfg = true -> (forall s p, nth_error progs s = Some p -> wf_script s p) ->
+  forall st k, Sim cfg progs st k ->
+  Sim cfg progs (run cfg progs st sched) (fun s => k s + count_occ Nat.eq_dec sched s).
+Proof.
+  intros Hk Hwf. unfold run. induction sched as [|s0 sched IH]; intros st k H.
+  - cbn [fold_left count_occ]. destruct H as [G H]. split; [exact G|]. intros s p Hp. rewrite Nat.add_0_r. now apply H.
+  - cbn [fold_left]. pose proof (IH _ _ (Sim_step _ _ _ _ s0 Hk Hwf H)) as [G' H']. split; [exact G'|].
+    intros s p Hp. destruct (H' s p Hp) as (ss & Es & A & R & E). exists ss.
+    assert (Q : (if Nat.eqb s s0 then S (k s) else k s) + count_occ Nat.eq_dec sched s = k s + count_occ Nat.eq_dec (s0 :: sched) s).
+    { cbn [count_occ]. destruct (Nat.eq_dec s0 s) as [->|Hne].
+      - rewrite Nat.eqb_refl. lia.
+      - destruct (Nat.eqb s s0) eqn:E'; [apply Nat.eqb_eq in E'; congruence | reflexivity]. }
+    rewrite <- Q. auto.
+Qed.
+
+(* Under any schedule every script is, after its k-th own step, exactly where it is after k steps
+   run alone: verdict, directory, environment, files, deferred functions, background processes and
+   everything it has observed. *)
+Lemma interleaving_irrelevant cfg progs sched s p :
+  key_by_path cfg = true -> (forall s p, nth_error progs s = Some p -> wf_script s p) ->
+  nth_error progs s = Some p ->
+  nth_error (scripts (run cfg progs (init progs) sched)) s
+  = Some (snd (alone cfg p s (count_occ Nat.eq_dec sched s))).
+Proof.
+  intros Hk Hwf Hp. destruct (Sim_run cfg progs sched Hk Hwf _ _ (Sim_init cfg progs)) as [_ H].
+  destruct (H s p Hp) as (ss & Es & A & _). cbn [Nat.add] in A. now rewrite Es, A.
+Qed.
+
+(* ---- scripts without [exec:...] conditions: whatever the key of the cache *)
+
+Lemma sstep_nocond cfg p s : script_uses_cond p = false ->
+  forall c1 c2 ss, snd (fst (sstep cfg p s c1 ss)) = snd (fst (sstep cfg p s c2 ss)).
+Proof.
+  intros H c1 c2 ss. unfold sstep. destruct (ph ss) as [|pc|v st|v].
+  - destruct (setup_tree _ _); [destruct (setup_err p)|]; reflexivity.
+  - destruct (nth_error (body p) pc) as [a|] eqn:Ea; [|reflexivity].
+    assert (Ha : uses_cond a = false).
+    { unfold script_uses_cond in H. destruct (uses_cond a) eqn:E; [|reflexivity].
+      assert (X : existsb uses_cond (body p) = true) by (apply existsb_exists; exists a; split; [eapply nth_error_In; eauto | exact E]).
+      congruence. }
+    destruct (exec_action_nocond cfg s a Ha c1 c2 ss) as [X _]. rewrite X.
+    destruct (exec_action cfg s c1 ss a) as [[c ss1] o]. reflexivity.
+  - destruct st; try reflexivity. destruct (retain cfg); reflexivity.
+  - reflexivity.
+Qed.
+
+Lemma interleaving_irrelevant_nocond cfg progs sched s p :
+  nth_error progs s = Some p -> script_uses_cond p = false ->
+  nth_error (scripts (run cfg progs (init progs) sched)) s
+  = Some (snd (alone cfg p s (count_occ Nat.eq_dec sched s))).
+Proof.
+  intros Hp Hn.
+  assert (G : forall sched st k, nth_error (scripts st) s = Some (snd (alone cfg p s k)) ->
+              nth_error (scripts (run cfg progs st sched)) s = Some (snd (alone cfg p s (k + count_occ Nat.eq_dec sched s)))).
+  { clear sched. unfold run. induction sched as [|s0 sched IH]; intros st k H.
+    - cbn [fold_left count_occ]. now rewrite Nat.add_0_r.
+    - cbn [fold_left count_occ]. destruct (Nat.eq_dec s0 s) as [->|Hne].
+      + replace (k + S (count_occ Nat.eq_dec sched s)) with (S k + count_occ Nat.eq_dec sched s) by lia.
+        apply IH. unfold step. rewrite Hp, H.
+        destruct (sstep cfg p s (xcache (sh st)) (snd (alone cfg p s k))) as [[c ss'] e] eqn:E. cbn [scripts].
+        rewrite (nth_error_upd_same _ _ _ _ H). f_equal. cbn [alone].
+        destruct (alone cfg p s k) as [ca ssa]. cbn [snd] in *.
+        pose proof (sstep_nocond cfg p s Hn (xcache (sh st)) ca ssa) as X. rewrite E in X. cbn [fst snd] in X.
+        destruct (sstep cfg p s ca ssa) as [[c2 ss2] e2]. cbn [fst snd] in *. now subst.
+      + apply IH. now rewrite step_frame. }
+  apply (G sched (init progs) 0). cbn. eapply nth_error_map_const_some; eauto.
+Qed.
+
+(* ---- with the key the cache had before the repair (program name only) the statement is false *)
+
+Definition b_bin : name := [x62; x69; x6e].
+Definition b_tool : name := [x6d; x79; x74; x6f; x6f; x6c].
+Definition cfg_prog_key : config :=
+  {| retain := false; key_by_path := false; has_cancel := false; is_root := true;
+     hostenv := [(PATH, [x2f; x75; x73; x72; x2f; x62; x69; x6e])]; hosttab := []; helper := [x68] |}.
+(* A: chmod 755 bin/mytool; env PATH=$WORK/bin; [exec:mytool] stop; then a failing line.
+   B: [exec:mytool] then a failing line (mytool is not on the host PATH). *)
+Definition script_A : script :=
+  {| archive := [([b_bin; b_tool], [])]; setup_adds := []; setup_defers := []; setup_err := false;
+     body := [AChmodX [b_bin; b_tool]; ASetPathOwn [b_bin] false; AIfExec false b_tool AStop; AFail] |}.
+Definition script_B : script :=
+  {| archive := []; setup_adds := []; setup_defers := []; setup_err := false;
+     body := [AIfExec false b_tool AFail] |}.
+
+Definition verdict_of (st : bstate) (s : nat) : option phase := option_map ph (nth_error (scripts st) s).
+
+Lemma prog_key_order_dependent :
+  let progs := [script_A; script_B] in
+  let a_first := repeat 0 12 ++ repeat 1 12 in
+  let b_first := repeat 1 12 ++ repeat 0 12 in
+  verdict_of (run cfg_prog_key progs (init progs) a_first) 0 = Some (Done VStop) /\
+  verdict_of (run cfg_prog_key progs (init progs) a_first) 1 = Some (Done VFail) /\
+  verdict_of (run cfg_prog_key progs (init progs) b_first) 0 = Some (Done VFail) /\
+  verdict_of (run cfg_prog_key progs (init progs) b_first) 1 = Some (Done VPass).
+Proof. vm_compute. repeat split. Qed.
+
+(* the same two scripts with the key that includes PATH: both orders agree with the solitary runs *)
+Example path_key_order_independent :
+  let cfg := {| retain := false; key_by_path := true; has_cancel := false; is_root := true;
+                hostenv := hostenv cfg_prog_key; hosttab := []; helper := [x68] |} in
+  let progs := [script_A; script_B] in
+  let a_first := repeat 0 12 ++ repeat 1 12 in
+  let b_first := repeat 1 12 ++ repeat 0 12 in
+  verdict_of (run cfg progs (init progs) a_first) 0 = Some (Done VStop) /\
+  verdict_of (run cfg progs (init progs) a_first) 1 = Some (Done VPass) /\
+  verdict_of (run cfg progs (init progs) b_first) 0 = Some (Done VStop) /\
+  verdict_of (run cfg progs (init progs) b_first) 1 = Some (Done VPass).
+Proof. vm_compute. repeat split. Qed.
+
+(* ------------------------------------------------------------------ every script finishes *)
+
+Definition mu (p : script) (ss : sstate) : nat :=
+  match ph ss with
+  | NotStarted => length (body p) + 7
+  | Running pc => (length (body p) - pc) + 6
+  | Ending _ SInt => 5
+  | Ending _ SWait => 4
+  | Ending _ SDefers => 3
+  | Ending _ SBgClean => 2
+  | Ending _ SCleanup => 1
+  | Done _ => 0
+  end.
+
+Lemma sstep_mu cfg p s c ss c' ss' e :
+  sstep cfg p s c ss = (c', ss', e) -> mu p ss' <= pred (mu p ss).
+Proof.
+  unfold sstep, mu. intro H. destruct (ph ss) as [|pc|v st|v] eqn:Eph.
+  - destruct (setup_tree _ _); [destruct (setup_err p)|]; injection H as <- <- <-; cbn [ph set_ph]; lia.
+  - destruct (nth_error (body p) pc) as [a|] eqn:Ea.
+    + destruct (exec_action cfg s c ss a) as [[c1 ss1] o]. injection H as <- <- <-. cbn [ph set_ph].
+      assert (pc < length (body p)) by (apply nth_error_Some; congruence).
+      destruct o; lia.
+    + injection H as <- <- <-. cbn [ph set_ph]. lia.
+  - destruct st; try (injection H as <- <- <-; cbn [ph set_ph]; lia).
+    destruct (retain cfg); injection H as <- <- <-; cbn [ph set_ph]; lia.
+  - injection H as <- <- <-. rewrite Eph. lia.
+Qed.
+
+Lemma mu_zero_done p ss : mu p ss = 0 -> is_done ss = true.
+Proof. unfold mu, is_done. destruct (ph ss) as [|pc|v []|v]; intro H; try lia; reflexivity. Qed.
+
+Lemma run_mu cfg progs s p : nth_error progs s = Some p ->
+  forall sched st ss, nth_error (scripts st) s = Some ss ->
+  exists ss', nth_error (scripts (run cfg progs st sched)) s = Some ss' /\ mu p ss' <= mu p ss - count_occ Nat.eq_dec sched s.
+Proof.
+  intro Hp. unfold run. induction sched as [|s0 sched IH]; intros st ss Hs.
+  - exists ss. cbn. split; [exact Hs | lia].
+  - cbn [fold_left count_occ]. destruct (Nat.eq_dec s0 s) as [->|Hne].
+    + unfold step at 2. rewrite Hp, Hs. destruct (sstep cfg p s (xcache (sh st)) ss) as [[c ss1] e] eqn:E.
+      pose proof (sstep_mu _ _ _ _ _ _ _ _ E) as M.
+      destruct (IH {| sh := apply_effect cfg (sh st) c e; scripts := upd (scripts st) s ss1 |} ss1) as (ss' & Hs' & M').
+      { cbn [scripts]. eapply nth_error_upd_same; eauto. }
+      exists ss'. split; [exact Hs' | lia].
+    + destruct (IH (step cfg progs st s0) ss) as (ss' & Hs' & M'); [now rewrite step_frame|].
+      exists ss'. split; [exact Hs' | lia].
+Qed.
+
+(* whatever the others do, a script that has been given steps_bound steps is finished: no exit path of
+   run can get stuck (in the model a wait always returns: processes die when interrupted) *)
+Lemma every_script_finishes cfg progs sched s p :
+  nth_error progs s = Some p -> steps_bound p <= count_occ Nat.eq_dec sched s ->
+  exists ss, nth_error (scripts (run cfg progs (init progs) sched)) s = Some ss /\ is_done ss = true.
+Proof.
+  intros Hp Hb. destruct (run_mu cfg progs s p Hp sched (init progs) sstate0) as (ss & Hs & M).
+  { cbn. eapply nth_error_map_const_some; eauto. }
+  exists ss. split; [exact Hs|]. apply (mu_zero_done p). unfold steps_bound in Hb. unfold mu at 2 in M. cbn [ph sstate0] in M. lia.
+Qed.
+
+(* ------------------------------------------------------------------ the statements of Properties/C04.v *)
+
+Lemma nth_error_same_length {A B} (l : list A) (l' : list B) i x :
+  length l = length l' -> nth_error l i = Some x -> exists y, nth_error l' i = Some y.
+Proof.
+  intros L H. assert (i < length l') by (rewrite <- L; apply nth_error_Some; congruence).
+  destruct (nth_error l' i) eqn:E; [eauto|]. apply nth_error_None in E. lia.
+Qed.
+
+Lemma reachable_sinv cfg progs sched s p ss :
+  nth_error progs s = Some p -> nth_error (scripts (run cfg progs (init progs) sched)) s = Some ss -> sinv cfg p s ss.
+Proof.
+  intros Hp Hs. destruct (run_all_sinv cfg progs sched _ (init_all_sinv cfg progs)) as [_ H]. eauto.
+Qed.
+
+Lemma in_setup_events e t l : In (EvSetup e t) l -> In (e, t) (setup_events l).
+Proof. intro H. unfold setup_events. apply in_flat_map. exists (EvSetup e t). split; [exact H | now left]. Qed.
+
+Lemma setup_event_is_initial cfg progs sched s p ss e t :
+  nth_error progs s = Some p -> nth_error (scripts (run cfg progs (init progs) sched)) s = Some ss ->
+  In (EvSetup e t) (obs ss) ->
+  e = initial_env (hostenv cfg) s (setup_adds p) /\ setup_tree (is_root cfg) (archive p) = Some t.
+Proof.
+  intros Hp Hs Hin. destruct (reachable_sinv _ _ _ _ _ _ Hp Hs) as (_ & SU & _).
+  apply in_setup_events in Hin. destruct SU as [SU|(t0 & Et & SU)]; rewrite SU in Hin; [destruct Hin|].
+  destruct Hin as [Hin|[]]. injection Hin as <- <-. now split.
+Qed.
+
+Lemma env_from_scratch cfg progs sched s p ss e t :
+  nth_error progs s = Some p -> nth_error (scripts (run cfg progs (init progs) sched)) s = Some ss ->
+  In (EvSetup e t) (obs ss) ->
+  e = initial_env (hostenv cfg) s (setup_adds p)
+  /\ map fst e = map fst setup_env_head ++ passthrough_present (hostenv cfg) ++ map fst setup_env_tail ++ map fst (setup_adds p)
+  /\ (forall h', (forall n, In n host_reads -> host_get h' n = host_get (hostenv cfg) n) ->
+                 initial_env h' s (setup_adds p) = e).
+Proof.
+  intros Hp Hs Hin. destruct (setup_event_is_initial _ _ _ _ _ _ _ _ Hp Hs Hin) as [-> _].
+  split; [reflexivity|]. split; [apply initial_env_names|]. intros h' H. now apply initial_env_indep.
+Qed.
+
+Lemma workdir_exact cfg progs sched s p ss e t :
+  nth_error progs s = Some p -> nth_error (scripts (run cfg progs (init progs) sched)) s = Some ss ->
+  In (EvSetup e t) (obs ss) ->
+  forall q, tree_get t q = expected_node (archive p) q.
+Proof.
+  intros Hp Hs Hin. destruct (setup_event_is_initial _ _ _ _ _ _ _ _ Hp Hs Hin) as [_ Ht].
+  eapply setup_tree_exact; eauto.
+Qed.
+
+Lemma defers_lifo_all_paths cfg progs sched s p ss v :
+  nth_error progs s = Some p -> nth_error (scripts (run cfg progs (init progs) sched)) s = Some ss ->
+  ph ss = Done v ->
+  defer_runs (obs ss) = rev (defer_regs (obs ss)) /\ dstack ss = [].
+Proof.
+  intros Hp Hs Hd. destruct (reachable_sinv _ _ _ _ _ _ Hp Hs) as (_ & _ & _ & PH). rewrite Hd in PH. apply PH.
+Qed.
+
+Lemma no_bg_left cfg progs sched s p ss v :
+  nth_error progs s = Some p -> nth_error (scripts (run cfg progs (init progs) sched)) s = Some ss ->
+  ph ss = Done v ->
+  bgl ss = [] /\ forall h, In h (bg_started (obs ss)) -> In h (bg_interrupted (obs ss)) /\ In h (bg_waited (obs ss)).
+Proof.
+  intros Hp Hs Hd. destruct (reachable_sinv _ _ _ _ _ _ Hp Hs) as (B & _ & _ & PH). rewrite Hd in PH.
+  destruct PH as (_ & Hb & _). split; [exact Hb|]. intros h Hh. destruct (B h Hh) as [Hin|H]; [|exact H].
+  rewrite Hb in Hin. destruct Hin.
+Qed.
+
+Lemma all_done_count st : all_done st = true <-> not_done_count (scripts st) = 0.
+Proof. unfold all_done. symmetry. apply not_done_count_zero. Qed.
+
+Lemma refcount_root cfg progs sched :
+  retain cfg = false -> progs <> [] ->
+  let st := run cfg progs (init progs) sched in
+  refcount (sh st) = not_done_count (scripts st)
+  /\ (all_done st = false -> root_present (sh st) = true /\ root_removals (sh st) = 0 /\ cancelled (sh st) = false)
+  /\ (all_done st = true -> root_present (sh st) = false /\ root_removals (sh st) = 1 /\ cancelled (sh st) = has_cancel cfg)
+  /\ (forall s ss, nth_error (scripts st) s = Some ss -> is_done ss = true -> wpresent ss = false /\ tr ss = []).
+Proof.
+  intros Hr Hne st. destruct (rc_inv_run cfg progs sched Hr _ (rc_inv_init cfg progs Hne)) as [R1 R2]. fold st in R1, R2.
+  split; [exact R1|]. split; [|split].
+  - intro Hd. destruct (Nat.eqb (refcount (sh st)) 0) eqn:E; [|exact R2].
+    apply Nat.eqb_eq in E. rewrite R1 in E. apply all_done_count in E. congruence.
+  - intro Hd. apply all_done_count in Hd. rewrite <- R1 in Hd. rewrite Hd in R2. exact R2.
+  - intros s ss Hs Hd. destruct (run_all_sinv cfg progs sched _ (init_all_sinv cfg progs)) as [L H]. fold st in L, H.
+    destruct (nth_error_same_length _ progs _ _ L Hs) as [p Hp].
+    destruct (H s p ss Hp Hs) as (_ & _ & _ & PH). unfold is_done in Hd. destruct (ph ss); try discriminate.
+    destruct PH as (_ & _ & PH). now apply PH.
+Qed.
+
+Lemma retention_keeps_everything cfg progs sched :
+  retain cfg = true ->
+  let st := run cfg progs (init progs) sched in
+  root_present (sh st) = true /\ root_removals (sh st) = 0 /\ cancelled (sh st) = false
+  /\ (forall s ss, nth_error (scripts st) s = Some ss -> ph ss <> NotStarted ->
+                   wpresent ss = true /\ work_removed (obs ss) = []).
+Proof.
+  intros Hr st. assert (K0 : keep_inv (init progs)) by (repeat split).
+  destruct (keep_inv_run cfg progs sched Hr _ K0) as (K1 & K2 & K3). fold st in K1, K2, K3.
+  repeat split; try assumption.
+  - destruct (run_all_sinv cfg progs sched _ (init_all_sinv cfg progs)) as [L Hall]. fold st in L, Hall.
+    destruct (nth_error_same_length _ progs _ _ L H) as [p Hp].
+    destruct (Hall s p ss Hp H) as (_ & _ & RT & _). now apply RT.
+  - destruct (run_all_sinv cfg progs sched _ (init_all_sinv cfg progs)) as [L Hall]. fold st in L, Hall.
+    destruct (nth_error_same_length _ progs _ _ L H) as [p Hp].
+    destruct (Hall s p ss Hp H) as (_ & _ & RT & _). now apply RT.
+Qed.
+
+(* the statement tied to the generated constant: it goes through only if the key of execCache
+   mentions the PATH of the script *)
+Lemma interleaving_irrelevant_gen cfg progs sched s p :
+  key_by_path cfg = exec_cache_key_has_path -> (forall s p, nth_error progs s = Some p -> wf_script s p) ->
+  nth_error progs s = Some p ->
+  nth_error (scripts (run cfg progs (init progs) sched)) s
+  = Some (snd (alone cfg p s (count_occ Nat.eq_dec sched s))).
+Proof. intro H. apply interleaving_irrelevant. rewrite H. reflexivity. Qed.
+
+Lemma prog_only_key_refuted :
+  exists cfg progs sched1 sched2 s,
+    key_by_path cfg = false /\ (forall s p, nth_error progs s = Some p -> wf_script s p) /\
+    (forall s', s' < length progs -> option_map is_done (nth_error (scripts (run cfg progs (init progs) sched1)) s') = Some true
+                                     /\ option_map is_done (nth_error (scripts (run cfg progs (init progs) sched2)) s') = Some true) /\
+    verdict_of (run cfg progs (init progs) sched1) s <> verdict_of (run cfg progs (init progs) sched2) s.
+Proof.
+  exists cfg_prog_key, [script_A; script_B], (repeat 0 12 ++ repeat 1 12), (repeat 1 12 ++ repeat 0 12), 0.
+  split; [reflexivity|]. split.
+  - intros [|[|s]] p H; cbn in H; [injection H as <-; constructor | injection H as <-; constructor | destruct s; discriminate].
+  - split.
+    + intros [|[|s']] H; cbn in H; try lia; vm_compute; split; reflexivity.
+    + destruct prog_key_order_dependent as (H1 & _ & H3 & _). cbv zeta in H1, H3. rewrite H1, H3. discriminate.
+Qed.
+
+(* ------------------------------------------------------------------ examples: every exit path occurs *)
+
+Definition ex_cfg : config :=
+  {| retain := false; key_by_path := true; has_cancel := true; is_root := false;
+     hostenv := [(PATH, [x2f; x62]); ([x47; x4f; x52; x41; x43; x45], [x78]); ([x43; x41; x4e; x41; x52; x59], [x31])];
+     hosttab := [(([x2f; x62], [x68]), true)]; helper := [x68] |}.
+Definition ex_script (b : list action) : script :=
+  {| archive := [([[x61]], [x31])]; setup_adds := [([x58], VWork 0 [[x67]])]; setup_defers := [(7, false)]; setup_err := false; body := b |}.
+Definition ex_progs : list script :=
+  [ ex_script [ADefer 1 false; ABg 1 false; ADefer 2 false; AProbe];
+    ex_script [ADefer 1 false; ABg 1 false; AFail; ADefer 2 false];
+    ex_script [ADefer 1 false; ABg 1 true; ASkip];
+    ex_script [ABg 1 false; ADefer 1 false; AStop; AFail];
+    {| archive := [([[x61]], [x31]); ([[x61]; [x62]], [x32])]; setup_adds := []; setup_defers := []; setup_err := false; body := [] |};
+    ex_script [ADefer 1 true; ADefer 2 false; ABg 3 false];
+    ex_script [AMkdir [[x64]] true; AWrite [[x64]; [x66]] [x31]] ].
+
+Example every_exit_path_occurs :
+  let st := run ex_cfg ex_progs (init ex_progs) (round_robin 7 12) in
+  map ph (scripts st) = [Done VPass; Done VFail; Done VSkip; Done VStop; Done VSetupFail; Done VPanic; Done VFail]
+  /\ map (fun ss => defer_runs (obs ss)) (scripts st) = [[2; 1; 7]; [1; 7]; [1; 7]; [1; 7]; []; [2; 1; 7]; [7]]
+  /\ map (fun ss => (bg_started (obs ss), bg_interrupted (obs ss), bg_waited (obs ss))) (scripts st)
+     = [([1], [1], [1]); ([1], [1], [1]); ([1], [1], [1]); ([1], [1], [1]); ([], [], []); ([3], [3], [3]); ([], [], [])]
+  /\ root_present (sh st) = false /\ root_removals (sh st) = 1 /\ cancelled (sh st) = true.
+Proof. vm_compute. repeat split. Qed.
+
+Example wf_example : forall s p, nth_error [ex_script [AProbe]] s = Some p -> wf_script s p.
+Proof. intros [|s] p H; cbn in H; [|destruct s; discriminate]. injection H as <-. repeat constructor. Qed.
